@@ -124,7 +124,10 @@ func (f *fatePlan) decide(d *simnet.Datagram) simnet.Fate {
 	isHS := false
 	if seg != nil {
 		budgetKey = fmt.Sprintf("%s/%d/%d/%d/%d", d.Flow, d.Dir, seg.Meta.SessionID, seg.Meta.Type, seg.Meta.Seq)
-		isHS = seg.Meta.Type == refproto.TypeOpenReq || seg.Meta.Type == refproto.TypeOpenResp
+		if seg.Meta.Type == refproto.TypeAckC2S || seg.Meta.Type == refproto.TypeAckS2C {
+			budgetKey += fmt.Sprintf("/%d", seg.Meta.UnAckSeq)
+		}
+		isHS = w.Tap.handshakePending(d.Flow, seg.Meta.SessionID)
 	}
 	hsKey := ""
 	if seg != nil {
@@ -154,6 +157,10 @@ func (f *fatePlan) decide(d *simnet.Datagram) simnet.Fate {
 	for i := range ns.Rules {
 		r := &ns.Rules[i]
 		if !f.ruleMatches(i, r, d, ci, seg) {
+			continue
+		}
+		if (r.Kind == "drop" || r.Kind == "corrupt") && (ns.MaxDropPerSeg > 0 || ns.MaxHandshakeDrops > 0) && !dropAllowed() {
+			w.fault("udp-rule-budget-spared")
 			continue
 		}
 		switch r.Kind {
@@ -215,6 +222,13 @@ func (f *fatePlan) decide(d *simnet.Datagram) simnet.Fate {
 		return record("dup", simnet.Fate{Delays: []time.Duration{-1, w.Net.BaseLatency + gap}}, gap.Microseconds())
 	case u < ns.DropRate+ns.DupRate+ns.DelayRate:
 		extra := time.Duration(1+simnet.Intn(h>>20, int(max64(ns.MaxDelayUs, 1000)))) * time.Microsecond
+		if ns.MaxHandshakeDrops > 0 && isHS && extra > 200*time.Millisecond {
+			if f.hsDrops[hsKey] >= ns.MaxHandshakeDrops {
+				extra = 200 * time.Millisecond
+			} else {
+				f.hsDrops[hsKey]++
+			}
+		}
 		return record("delay", simnet.Fate{Delays: []time.Duration{w.Net.BaseLatency + extra}}, extra.Microseconds())
 	case u < ns.DropRate+ns.DupRate+ns.DelayRate+ns.CorruptRate:
 		if dropAllowed() && len(d.Data) > 0 {
